@@ -14,7 +14,7 @@ func main() {
 		os.Exit(64)
 	}
 	switch os.Args[1] {
-	case "C04":
+	case "C04", "C04A":
 		runC04()
 	default:
 		fmt.Fprintln(os.Stderr, "unknown property", os.Args[1])
